@@ -448,6 +448,17 @@ V("s-allranks-loop", "silent", ["C16", "C17", "C18"], PO, "        return {w: se
 V("s-queries-copy", "silent", ["C10"], "inference/queries.py", "        self.conditionals = belief_base.conditionals\n", "        self.conditionals = dict(belief_base.conditionals)\n", note="the query container keeps a copy of the mapping")
 V("s-queries-comp", "silent", ["C10"], "inference/queries.py", "        self.conditionals = query_dict\n", "        self.conditionals = {k: v for k, v in query_dict.items()}\n")
 V("f-queries-renumber", "fire", ["C10"], "inference/queries.py", "        self.conditionals = query_dict\n", "        self.conditionals = dict(enumerate(query_dict.values(), start=1))\n", note="sparse / 0-based keys of a query mapping are renumbered")
+V("s-wz3-shortcut-F-empty", "silent", ["C03", "C07", "C09"], "inference/system_w_z3.py", "        if not any_subset_of_all(xi_i_set, xi_i_prime_set):\n",
+  "        if not xi_i_prime_set:\n            return True\n        if not any_subset_of_all(xi_i_set, xi_i_prime_set):\n", note="no falsifying correction set: vacuously True, as the comparison says")
+V("s-wz3-shortcut-V-empty", "silent", ["C03", "C07", "C09"], "inference/system_w_z3.py", "        if not any_subset_of_all(xi_i_set, xi_i_prime_set):\n",
+  "        if not xi_i_set and xi_i_prime_set:\n            return False\n        if not any_subset_of_all(xi_i_set, xi_i_prime_set):\n", note="no verifying set but a falsifying one: False, as the comparison says")
+V("f-wz3-shortcut-either-empty", "fire", ["C03"], "inference/system_w_z3.py", "        if not any_subset_of_all(xi_i_set, xi_i_prime_set):\n",
+  "        if not xi_i_set or not xi_i_prime_set:\n            return True\n        if not any_subset_of_all(xi_i_set, xi_i_prime_set):\n", note="seed C03-16")
+V("f-z3-timeout-division", "fire", ["C14"], "inference/system_w_z3.py", "opt.set(timeout=deadline.remaining_ms())", "opt.set(timeout=deadline.remaining_ms() / 1)", note="a float timeout: Z3Exception instead of an expiry")
+V("s-z3-timeout-max-int", "silent", ["C14"], "inference/system_w_z3.py", "opt.set(timeout=deadline.remaining_ms())", "opt.set(timeout=max(1, deadline.remaining_ms()))")
+V("f-deadline-ms-float", "fire", ["C14"], "inference/deadline.py", "        return int(self.remaining_seconds() * 1000)\n", "        return self.remaining_seconds() * 1000\n", note="remaining_ms hands a float to z3")
+V("f-diag-bool-partition", "fire", ["C06"], "inference/consistency_diagnostics.py", 'diag["belief_base_consistent"] = base_part_std is not False', 'diag["belief_base_consistent"] = bool(base_part_std)', note="seed C06-16: the empty base has the partition []")
+V("s-diag-isinstance-list", "silent", ["C06"], "inference/consistency_diagnostics.py", 'diag["belief_base_consistent"] = base_part_std is not False', 'diag["belief_base_consistent"] = isinstance(base_part_std, list)')
 V("f-tpo2ranks-return-in-loop", "fire", ["C18"], PO, "            ranks[world] = rank_function(layer_num)\n    return ranks\n", "            ranks[world] = rank_function(layer_num)\n        return ranks\n")
 V("s-avg-guard-by-count", "silent", ["C14", "C06", "C13"], INF, "                \"average_query_time_ms\": total_inference_time / len(queries)\n                if queries\n                else 0,\n",
   "                \"average_query_time_ms\": total_inference_time / len(queries)\n                if len(queries)\n                else 0,\n", note="the division guarded by the count instead of the mapping")
